@@ -51,6 +51,17 @@ theorem entries_length {K : Type} (m : List (K × V)) (kf : K → String) :
     (sortByKey (m.map (fun kv => (kf kv.1, kv.2)))).length = m.length := by
   rw [sortByKey_length, List.length_map]
 
+/-- **A walk through any listing built on `query.Paginate` returns the store's records, each once**
+(as a permutation of the store's values), whatever the page size. -/
+theorem walk_entries_perm {K : Type} (m : List (K × V)) (kf : K → String) (limit fuel : Nat)
+    (hraw : (m.map (fun kv => kf kv.1)).Nodup) (hf : m.length + 1 ≤ fuel) :
+    ∃ l, walk (sortByKey (m.map (fun kv => (kf kv.1, kv.2)))) limit false fuel none [] = some l ∧
+      l.Perm (m.map (·.2)) := by
+  refine ⟨_, walk_forward_complete _ limit fuel (entries_sorted m kf hraw) (by rw [entries_length]; exact hf), ?_⟩
+  have := (sortByKey_perm (m.map (fun kv => (kf kv.1, kv.2)))).map (·.2)
+  rw [List.map_map] at this
+  exact this
+
 theorem underPrefix_sorted (l : List (String × V)) (p : String) (h : Sorted l) : Sorted (underPrefix l p) :=
   List.Pairwise.sublist List.filter_sublist h
 
